@@ -7,10 +7,11 @@ import PV.Model.Eval
   * The printer emits a *printed structure* `Doc`: literals, identifiers, opaque text, explicit
     parentheses and infix chains exactly as the Python code concatenates them (no parenthesis is
     ever added by `render`).  `render` is the emitted text (tied to the real code by correspondence);
-    `denC` is the meaning a C compiler gives to that text on the integer fragment (C grammar:
-    left-associative additive / multiplicative levels, truncating `/` and `%`): an unparenthesised
-    operand that is itself a chain of the same level is *spliced* into the surrounding chain, as a C
-    parser reads it.
+    `denC` is the meaning a C compiler gives to that text on the integer fragment: the text is
+    flattened into the chain of primaries and binary operators it consists of (explicit parentheses,
+    calls and `(c ? t : e)` are primaries) and the chain is grouped by C's ten precedence levels of
+    left-associative binary operators, with truncating `/` and `%`, 0/1-valued comparisons,
+    short-circuit `&&`/`||`, lazy `?:`, `&`/`^`/`|`/shifts on non-negative ints.
   * The CSE allocator is a state machine `CSt` = (`cse_to_name`, `cse_names`, `cse_name_list`) with
     operations `emit` (`ccode`), `copy`, `copyWithMappedCses`; all as coded, bugs included:
     `copy()` rebuilds `cse_to_name` keyed by the *strings* of `cse_name_list` and `cse_names` from
@@ -23,26 +24,53 @@ namespace PV
 
 /-! ### printed structure -/
 
+/-- the binary infix operators of the emitted C text -/
 inductive COp where
   | plus | minus | times | divSp | divTight | mod
+  | shl | shr
+  | cmp (o : CmpOp)
+  | band | bxor | bor
+  | land | lor
   deriving Repr, DecidableEq, Inhabited
 
-/-- multiplicative level (`*`, `/`, `%`) or additive level (`+`, `-`) of the C grammar -/
-def COp.isMul : COp → Bool
-  | .plus | .minus => false
-  | _ => true
+/-- the prefix operators of the emitted C text -/
+inductive CUn where
+  | lnot | bnot
+  deriving Repr, DecidableEq, Inhabited
+
+/-- the precedence levels of C's binary operators (C99 6.5.5 – 6.5.14; larger binds tighter):
+multiplicative 10, additive 9, shift 8, relational 7, equality 6, `&` 5, `^` 4, `|` 3, `&&` 2,
+`||` 1.  All of them associate to the left. -/
+def COp.prec : COp → Nat
+  | .times | .divSp | .divTight | .mod => 10
+  | .plus | .minus => 9
+  | .shl | .shr => 8
+  | .cmp .lt | .cmp .le | .cmp .gt | .cmp .ge => 7
+  | .cmp .eq | .cmp .ne => 6
+  | .band => 5
+  | .bxor => 4
+  | .bor => 3
+  | .land => 2
+  | .lor => 1
 
 /-- the separator exactly as the mapper writes it -/
 def COp.text : COp → String
   | .plus => " + " | .minus => " - " | .times => " * " | .divSp => " / " | .divTight => "/"
-  | .mod => " % "
+  | .mod => " % " | .shl => " << " | .shr => " >> " | .cmp o => " " ++ o.sym ++ " "
+  | .band => " & " | .bxor => " ^ " | .bor => " | " | .land => " && " | .lor => " || "
+
+def CUn.text : CUn → String
+  | .lnot => "!" | .bnot => "~"
 
 inductive Doc where
   | lit (n : Int)
   | var (x : String)
-  | atom (s : String)                     -- opaque text (calls, ternaries, comparisons, floats, …)
+  | atom (s : String)                     -- opaque text (pow(…), other calls, floats, subscripts, …)
   | paren (d : Doc)
   | bin (l : Doc) (op : COp) (r : Doc)    -- `l op r`, printed without any parentheses
+  | un (op : CUn) (d : Doc)               -- `!d` / `~d`, printed without any parentheses
+  | tern (c t e : Doc)                    -- `(c ? t : e)`: the parentheses belong to the form
+  | call2 (f : String) (a b : Doc)        -- `f(a, b)` for `min` / `max` of two operands
   deriving Repr, Inhabited
 
 def Doc.render : Doc → String
@@ -51,14 +79,26 @@ def Doc.render : Doc → String
   | .atom s => s
   | .paren d => "(" ++ d.render ++ ")"
   | .bin l op r => l.render ++ op.text ++ r.render
+  | .un op d => op.text ++ d.render
+  | .tern c t e => "(" ++ c.render ++ " ? " ++ t.render ++ " : " ++ e.render ++ ")"
+  | .call2 f a b => f ++ "(" ++ a.render ++ ", " ++ b.render ++ ")"
 
-/-- an unparenthesised additive chain -/
-def Doc.addBare : Doc → Bool
-  | .bin _ op _ => !op.isMul
-  | _ => false
+def c14CmpInt : CmpOp → Int → Int → Bool
+  | .eq, a, b => a == b
+  | .ne, a, b => a != b
+  | .lt, a, b => decide (a < b)
+  | .le, a, b => decide (a ≤ b)
+  | .gt, a, b => decide (b < a)
+  | .ge, a, b => decide (b ≤ a)
 
-/-- C's binary integer operators on unbounded ints: `/` truncates toward zero, `%` has the sign of
-the dividend (C99 6.5.5); division by zero is undefined (`none`) -/
+def c14B2I (b : Bool) : Int := if b then 1 else 0
+
+/-- C's binary operators on unbounded ints, both operands evaluated: `/` truncates toward zero,
+`%` has the sign of the dividend (C99 6.5.5), division by zero is undefined (`none`); shifts are
+defined for a non-negative left operand and a non-negative amount (6.5.7; `>>` of a non-negative
+value is the quotient by `2^b`); comparisons and `&&`/`||` give 1 or 0 (6.5.8, 6.5.9, 6.5.13);
+`&`, `^`, `|` are taken on non-negative operands only (no assumption on the representation of
+negative numbers). -/
 def COp.apply : COp → Int → Int → Option Int
   | .plus, a, b => some (a + b)
   | .minus, a, b => some (a - b)
@@ -66,52 +106,102 @@ def COp.apply : COp → Int → Int → Option Int
   | .divSp, a, b => if b = 0 then none else some (Int.tdiv a b)
   | .divTight, a, b => if b = 0 then none else some (Int.tdiv a b)
   | .mod, a, b => if b = 0 then none else some (Int.tmod a b)
+  | .shl, a, b => if a < 0 ∨ b < 0 then none else some (a * 2 ^ b.toNat)
+  | .shr, a, b => if a < 0 ∨ b < 0 then none else some (a / 2 ^ b.toNat)
+  | .cmp o, a, b => some (c14B2I (c14CmpInt o a b))
+  | .band, a, b => if a < 0 ∨ b < 0 then none else some (Int.ofNat (a.toNat &&& b.toNat))
+  | .bxor, a, b => if a < 0 ∨ b < 0 then none else some (Int.ofNat (a.toNat ^^^ b.toNat))
+  | .bor, a, b => if a < 0 ∨ b < 0 then none else some (Int.ofNat (a.toNat ||| b.toNat))
+  | .land, a, b => some (c14B2I (a != 0 && b != 0))
+  | .lor, a, b => some (c14B2I (a != 0 || b != 0))
+
+/-- … on possibly undefined operands: every operator needs both operands except `&&` and `||`,
+which do not evaluate the right operand when the left one decides (C99 6.5.13, 6.5.14) -/
+def COp.applyL : COp → Option Int → Option Int → Option Int
+  | .land, some a, y => if a = 0 then some 0 else
+      match y with
+      | some b => some (c14B2I (b != 0))
+      | none => none
+  | .lor, some a, y => if a = 0 then
+      match y with
+      | some b => some (c14B2I (b != 0))
+      | none => none
+      else some 1
+  | op, some a, some b => op.apply a b
+  | _, _, _ => none
+
+/-- `!a` is 1 or 0; `~a` is `-a - 1` (two's complement, C23 / every gcc target) -/
+def CUn.apply : CUn → Option Int → Option Int
+  | .lnot, some a => some (c14B2I (a == 0))
+  | .bnot, some a => some (-a - 1)
+  | _, none => none
+
+/-- `c ? t : e` evaluates only the chosen branch (C99 6.5.15) -/
+def c14Tern : Option Int → Option Int → Option Int → Option Int
+  | some c, t, e => if c = 0 then e else t
+  | none, _, _ => none
+
+/-- the two functions the mapper calls by name on integers: `min(a, b)`, `max(a, b)` (supplied by
+the program that uses the generated code; with Python's tie rule, which does not matter on ints) -/
+def c14Call2 : String → Option Int → Option Int → Option Int
+  | "min", some a, some b => some (if b < a then b else a)
+  | "max", some a, some b => some (if a < b then b else a)
+  | _, _, _ => none
 
 def envInt (env : Env) (x : String) : Option Int :=
   match env.get x with
   | some (.int n) => some n
   | _ => none
 
-mutual
-/-- the value a C compiler computes for the text of `d` (integer fragment; `none`: outside the
-fragment, division by zero, or a chain of lower precedence sits unparenthesised inside a chain of
-higher precedence, which C would read differently from the structure) -/
-def denC (env : Env) : Doc → Option Int
-  | .lit n => some n
-  | .var x => envInt env x
-  | .atom _ => none
-  | .paren d => denC env d
-  | .bin l op r =>
-      if op.isMul && l.addBare then none else
-      match denC env l with
-      | some a => applyC env a op r
-      | none => none
-/-- `acc op <text of d>` as C reads it: when `d` is an unparenthesised chain of the same level its
-first operand binds to `acc` (left associativity) -/
-def applyC (env : Env) (acc : Int) (op : COp) : Doc → Option Int
-  | .lit n => op.apply acc n
-  | .var x => match envInt env x with
-    | some v => op.apply acc v
+/-! #### C's reading of an unparenthesised chain `v0 op1 v1 op2 v2 …`
+
+Operands are already-valued primaries (constants, identifiers, parenthesised expressions, calls,
+each possibly under prefix operators); the grammar of C99 6.5.5 – 6.5.14 groups the chain around
+the LAST operator of the LOWEST precedence (all binary operators associate to the left), and so
+on inside the two parts. -/
+
+abbrev CRest := List (COp × Option Int)
+
+def c14MinPrec : CRest → Nat
+  | [] => 100
+  | (o, _) :: t => min o.prec (c14MinPrec t)
+
+/-- split at the last operator of precedence `m`: (before, op, its right operand, after) -/
+def c14SplitLast (m : Nat) : CRest → Option (CRest × COp × Option Int × CRest)
+  | [] => none
+  | (o, v) :: t =>
+    match c14SplitLast m t with
+    | some (b, o', v', a) => some ((o, v) :: b, o', v', a)
+    | none => if o.prec = m then some ([], o, v, t) else none
+
+/-- the value of the chain `f rest`; the budget `rest.length` always suffices -/
+def c14EvalChain : Nat → Option Int → CRest → Option Int
+  | _, f, [] => f
+  | 0, _, _ :: _ => none
+  | fuel + 1, f, x :: t =>
+    match c14SplitLast (c14MinPrec (x :: t)) (x :: t) with
+    | some (b, o, v, a) => o.applyL (c14EvalChain fuel f b) (c14EvalChain fuel v a)
     | none => none
-  | .atom _ => none
-  | .paren d => match denC env d with
-    | some v => op.apply acc v
-    | none => none
-  | .bin r1 op' r2 =>
-      if op'.isMul == op.isMul then
-        match applyC env acc op r1 with
-        | some a => applyC env a op' r2
-        | none => none
-      else if op.isMul then none           -- additive chain inside a multiplicative one
-      else
-        -- a multiplicative chain inside an additive one is grouped first
-        if r1.addBare then none else
-        match denC env r1 with
-        | some a => match applyC env a op' r2 with
-          | some v => op.apply acc v
-          | none => none
-        | none => none
-end
+
+def c14Ev (c : Option Int × CRest) : Option Int := c14EvalChain c.2.length c.1 c.2
+
+/-- the chain of primaries and binary operators that the text of `d` puts into its context (no
+parentheses are added around `d`): a prefix operator binds to the first primary only -/
+def chainOf (env : Env) : Doc → Option Int × CRest
+  | .lit n => (some n, [])
+  | .var x => (envInt env x, [])
+  | .atom _ => (none, [])
+  | .paren d => (c14Ev (chainOf env d), [])
+  | .bin l op r => ((chainOf env l).1, (chainOf env l).2 ++ (op, (chainOf env r).1) :: (chainOf env r).2)
+  | .un op d => (op.apply (chainOf env d).1, (chainOf env d).2)
+  | .tern c t e => (c14Tern (c14Ev (chainOf env c)) (c14Ev (chainOf env t)) (c14Ev (chainOf env e)), [])
+  | .call2 f a b => (c14Call2 f (c14Ev (chainOf env a)) (c14Ev (chainOf env b)), [])
+
+/-- the value a C compiler computes for the text of `d` on the integer fragment (unbounded ints;
+`none`: opaque text, an undefined operation, or an unknown variable).  The text is read with C's
+precedences, NOT with the structure the mapper had in mind: `a * b % c` printed for `a * (b % c)`
+denotes `(a * b) % c`. -/
+def denC (env : Env) (d : Doc) : Option Int := c14Ev (chainOf env d)
 
 /-! ### the allocator state -/
 
@@ -368,21 +458,21 @@ def assemble (S : PrintPrec) (rev : Bool) (e : Expr) (enc : Nat) (ds : List Doc)
       | .square _, [d] => pure d
       | .powCall, [x, y] => pure (.atom ("pow(" ++ x.render ++ ", " ++ y.render ++ ")"))
       | _, _ => throw .noClaim
-  | .bin .lshift _ _, [x, y] => pure (atomIf (x.render ++ " << " ++ y.render) enc S.shift)
-  | .bin .rshift _ _, [x, y] => pure (atomIf (x.render ++ " >> " ++ y.render) enc S.shift)
-  | .un .bnot _, [x] => pure (atomIf ("~" ++ x.render) enc S.unary)
-  | .un .lnot _, [x] => pure (atomIf ("!" ++ x.render) enc S.unary)
-  | .nary .bor _, ds => pure (atomIf (joinText " | " ds) enc S.bor)
-  | .nary .bxor _, ds => pure (atomIf (joinText " ^ " ds) enc S.bxor)
-  | .nary .band _, ds => pure (atomIf (joinText " & " ds) enc S.band)
-  | .nary .lor _, ds => pure (atomIf (joinText " || " ds) enc S.lor)
-  | .nary .land _, ds => pure (atomIf (joinText " && " ds) enc S.land)
+  | .bin .lshift _ _, [x, y] => pure (parenIfD (.bin x .shl y) enc S.shift)
+  | .bin .rshift _ _, [x, y] => pure (parenIfD (.bin x .shr y) enc S.shift)
+  | .un .bnot _, [x] => pure (parenIfD (.un .bnot x) enc S.unary)
+  | .un .lnot _, [x] => pure (parenIfD (.un .lnot x) enc S.unary)
+  | .nary .bor _, ds => pure (parenIfD (joinDocs .bor ds) enc S.bor)
+  | .nary .bxor _, ds => pure (parenIfD (joinDocs .bxor ds) enc S.bxor)
+  | .nary .band _, ds => pure (parenIfD (joinDocs .band ds) enc S.band)
+  | .nary .lor _, ds => pure (parenIfD (joinDocs .lor ds) enc S.lor)
+  | .nary .land _, ds => pure (parenIfD (joinDocs .land ds) enc S.land)
+  | .nary .min _, [a, b] => pure (.call2 "min" a b)
+  | .nary .max _, [a, b] => pure (.call2 "max" a b)
   | .nary .min _, ds => pure (.atom ("min(" ++ joinText ", " ds ++ ")"))
   | .nary .max _, ds => pure (.atom ("max(" ++ joinText ", " ds ++ ")"))
-  | .cmp o _ _, [x, y] =>
-      pure (atomIf (x.render ++ " " ++ o.sym ++ " " ++ y.render) enc S.comparison)
-  | .ite _ _ _, [c, t, e] =>
-      pure (.atom ("(" ++ c.render ++ " ? " ++ t.render ++ " : " ++ e.render ++ ")"))
+  | .cmp o _ _, [x, y] => pure (parenIfD (.bin x (.cmp o) y) enc S.comparison)
+  | .ite _ _ _, [c, t, e] => pure (.tern c t e)
   | _, _ => throw .noClaim
 
 abbrev COut := Doc × List String × CSt
